@@ -56,23 +56,50 @@ const (
 
 var selStoreKindNames = []string{"ints", "floats", "texts", "mixed"}
 
+// wide scopes (a thin slice of the cases): keys and QUOTED literals with 2-, 3- and 4-byte UTF-8
+// sequences and with bytes ≥ 0x80 that are no valid UTF-8, next to their byte-order neighbours
+// (café / cafè / caf / cafés); integers beyond 2^53 as stored values and as literals.  In a wide
+// case the generator leaves out upper/lower (the reference maps ASCII letters only, Go maps
+// Unicode letters: outside the reference's domain) and the patterns containing `.` (the modelled
+// regular expressions match bytes, Go matches UTF-8 sequences).
+var (
+	selWideKeyLits   = []string{"café", "caf", "cafè", "cafés", "键", "键2", "é", "😅", "k\xff", "\x80", "naïve", "k"}
+	selWideTexts     = []string{"café", "naïve", "键值", "😅", "héllo wörld", "Ünï", "caf", "\xff\xfe", "a\x80b"}
+	selBigInts       = []string{"9007199254740993", "-9007199254740993", "1234567890123456789", "9007199254740992", "-1234567890123456789", "4611686018427387905"}
+	selPatternsNoDot = []string{"^a", "b$", "1", "^k[0-9]$", "^$", "", "[0-9][0-9]", "^[0-9]$", "b", "é", "^caf"}
+)
+
 type SGen struct {
 	*Gen
-	kind int // store kind
+	kind int  // store kind
+	wide bool // see above
 }
 
 func (g *SGen) intLit() string {
 	if g.r.Chance(1, 40) {
 		return pick(g.r, []string{"9223372036854775807", "4611686018427387904"})
 	}
+	if g.r.Chance(1, 30) {
+		return pick(g.r, []string{"9007199254740993", "9007199254740992", "1234567890123456789", "2147483648", "4294967296"})
+	}
 	return pick(g.r, []string{"0", "1", "2", "3", "10", "7", "100", "5"})
 }
 
-func (g *SGen) floatLit() string { return pick(g.r, []string{"0.5", "1.5", "2.0", "0.25", "10.0", "3.75"}) }
+func (g *SGen) floatLit() string {
+	return pick(g.r, []string{"0.5", "1.5", "2.0", "0.25", "10.0", "3.75"})
+}
 
-func (g *SGen) keyLit() string { return quote(pick(g.r, selKeyLits)) }
+func (g *SGen) keyLit() string {
+	if g.wide && g.r.Chance(2, 3) {
+		return quote(pick(g.r, selWideKeyLits))
+	}
+	return quote(pick(g.r, selKeyLits))
+}
 
 func (g *SGen) textLit() string {
+	if g.wide && g.r.Chance(1, 3) {
+		return quote(pick(g.r, selWideTexts))
+	}
 	switch g.r.Intn(3) {
 	case 0:
 		return g.keyLit()
@@ -95,7 +122,11 @@ func (g *SGen) Str(d int) string {
 			return g.textLit()
 		}
 	}
-	switch g.r.Intn(7) {
+	c := g.r.Intn(7)
+	if g.wide && c < 2 {
+		c = 4 // no case mapping of multi-byte text
+	}
+	switch c {
 	case 0:
 		return g.kw("lower") + "(" + g.Str(d-1) + ")"
 	case 1:
@@ -232,6 +263,9 @@ func (g *SGen) atom(d int) string {
 	case 8:
 		return pick(g.r, []string{"is_int", "is_float"}) + "(" + g.Str(d) + ")"
 	case 9:
+		if g.wide {
+			return g.Str(d) + " ~= " + quote(pick(g.r, selPatternsNoDot))
+		}
 		return g.Str(d) + " ~= " + quote(pick(g.r, selPatterns))
 	case 10:
 		if g.r.Bool() {
@@ -315,6 +349,9 @@ var selFixedPreds = []string{
 	"int(value) > 1.5", "float(value) = int(value)", "2 * 0.5 + int(value) = 2", "3 * 0.5 > float(value)", "(key = 'a') = (value = '1')",
 	"float(value) + 1.0 + 1.0 = float(value)", "float(value) + 1.0 + 1.0 > float(value) + 1.0", "int(value) * 2 * 0.5 = int(value)", "value + 'a' + 'b' = value + 'ab'",
 	"key != 'a' and key != 'b'", "'ab' ^= key", "value ^= key", "key < value", "str(1.5) = '1.500000'", "int(1.5) = 1",
+	// integers beyond 2^53 (stored and literal): a detour through float64 rounds them
+	"int(value) = 9007199254740993", "int(value) > 9007199254740992", "int(value) - 9007199254740992 = 1", "int(value) != 1234567890123456768",
+	"str(int(value)) = value", "int(value) + 0 = 0 - 9007199254740993", "int(value) in (9007199254740993, 1234567890123456789)",
 }
 
 // ---------------------------------------------------------------- stores
@@ -352,7 +389,44 @@ func selKeyPool() []string {
 
 var selPool = selKeyPool()
 
-func selStore(r *Rand, size int, kind int) []KV {
+// selWidePool: the wide literals, their prefixes (cut at every byte, so also inside a UTF-8
+// sequence), neighbours and extensions, and a few ASCII keys
+func selWideKeyPool() []string {
+	seen := map[string]bool{}
+	var pool []string
+	add := func(k string) {
+		if !seen[k] {
+			seen[k] = true
+			pool = append(pool, k)
+		}
+	}
+	for _, l := range selWideKeyLits {
+		for i := 0; i <= len(l); i++ {
+			add(l[:i])
+		}
+		for _, s := range []string{"\x00", "0", "s", "é", "\xff", "~"} {
+			add(l + s)
+		}
+		b := []byte(l)
+		b[len(b)-1]--
+		add(string(b))
+		add(string(b) + "\xff")
+		b[len(b)-1] += 2
+		add(string(b))
+	}
+	for _, k := range []string{"a", "ab", "b", "k1", "k2", "l", "z", "cafe", "cafz", "\xc3", "\xe9\x94", "\xff"} {
+		add(k)
+	}
+	return pool
+}
+
+var selWidePool = selWideKeyPool()
+
+func selStore(r *Rand, size int, kind int, wide bool) []KV {
+	selPool := selPool
+	if wide {
+		selPool = selWidePool
+	}
 	idx := r.perm(len(selPool))
 	if size > len(idx) {
 		size = len(idx)
@@ -367,10 +441,16 @@ func selStore(r *Rand, size int, kind int) []KV {
 		switch k {
 		case skInts:
 			v = pick(r, selIntVals)
+			if r.Chance(1, 8) {
+				v = pick(r, selBigInts)
+			}
 		case skFloats:
 			v = pick(r, selFloatVals)
 		case skTexts:
 			v = pick(r, selTextVals)
+			if wide && r.Bool() {
+				v = pick(r, selWideTexts)
+			}
 		default:
 			v = ""
 		}
@@ -502,6 +582,17 @@ func selectCase(e *Env, col *Collector, d *Driver, bs, i int, idx uint64) error 
 	o := defaultOpts()
 	o.UpperCase = r.Chance(1, 10)
 	g := &SGen{Gen: NewGen(r, o), kind: kind}
+	if i%7 == 3 && i%6 != 0 {
+		// the wide slice (never a fixed predicate: some apply upper / lower to the key): multi-byte and ≥ 0x80 keys and literals; text stores more often
+		g.wide = true
+		if r.Bool() {
+			kind = skTexts
+			g.kind = kind
+		}
+	}
+	if i%16 == 5 {
+		return selectDirectCase(e, col, bs, i, idx, r)
+	}
 	var pred string
 	fixed := i%6 == 0
 	if fixed {
@@ -519,9 +610,12 @@ func selectCase(e *Env, col *Collector, d *Driver, bs, i int, idx uint64) error 
 	if bs == 32 && r.Chance(1, 2) {
 		size = r.Intn(12)
 	}
-	kvs := selStore(r, size, kind)
+	if bs == 32 && i%8 == 1 {
+		size = 33 + r.Intn(90) // more than one and more than two batches of the default size
+	}
+	kvs := selStore(r, size, kind, g.wide)
 	q := g.kw("select") + " * " + g.kw("where") + " " + pred
-	caseStr := fmt.Sprintf("`%s` on %s bs=%d", q, showKVs(kvs), bs)
+	caseStr := fmt.Sprintf("`%s` on %s bs=%d", visible(q), showKVs(kvs), bs)
 
 	stmt, perr := parseTargets(q)
 	if perr != nil {
@@ -536,7 +630,16 @@ func selectCase(e *Env, col *Collector, d *Driver, bs, i int, idx uint64) error 
 		return nil
 	}
 	col.Hist("parse:accepted", "store:"+selStoreKindNames[kind], fmt.Sprintf("store-size:%s", sizeBucket(len(kvs), bs)))
+	if g.wide {
+		col.Hist("wide:accepted")
+	}
 	where := stmt.Where.Expr
+	// ---- the literals of the tree are the quoted texts of the statement, byte for byte (the
+	// reference below is asked about the PARSED tree, so a literal altered on the way in would go unseen)
+	if wrote, parsed := quotedLiterals(q), treeLiterals(where); wrote != parsed {
+		col.Find(Finding{Kind: "property", Group: "SELECT", Check: "literal-not-preserved", Case: "`" + visible(q) + "`", Line: "PARSE " + hxs(q) + " -",
+			Engine: "literals of the parsed WHERE: " + parsed, Model: "quoted texts of the statement: " + wrote, Seed: e.Seed, Index: idx, Properties: []string{"C01"}})
+	}
 	wire := wireExpr(where)
 	if strings.Contains(wire, "Y") || strings.Contains(wire, "?") {
 		col.Hist("skip:unknown-node")
@@ -612,7 +715,7 @@ func selectCase(e *Env, col *Collector, d *Driver, bs, i int, idx uint64) error 
 			col.Hist("pair:ref-" + ref[j])
 			if got != ref[j] {
 				pl := fmt.Sprintf("SPECEVAL %s %s", wire, pairsWire(chunk[j:j+1]))
-				col.Find(Finding{Kind: "property", Group: "SELECT", Check: "engine-vs-reference-evaluator", Case: fmt.Sprintf("`%s` on %q=%q", where.String(), kvs[j].K, kvs[j].V),
+				col.Find(Finding{Kind: "property", Group: "SELECT", Check: "engine-vs-reference-evaluator", Case: fmt.Sprintf("`%s` on %q=%q", visible(where.String()), kvs[j].K, kvs[j].V),
 					Line: pl, Engine: "Execute: " + got, Model: "reference: " + ref[j], Class: "row:" + selMech(where, chunk[j:j+1]), Seed: e.Seed, Index: idx, Properties: []string{"C01", "C10"}})
 			}
 		}
@@ -723,6 +826,148 @@ func sizeBucket(n, bs int) string {
 	default:
 		return ">2bs"
 	}
+}
+
+// quotedLiterals: the texts between quotes of a statement (the language has no escapes; a literal
+// ends at the next quote of the kind that opened it), hex, sorted
+func quotedLiterals(q string) string {
+	var out []string
+	for i := 0; i < len(q); i++ {
+		if c := q[i]; c == '\'' || c == '"' {
+			j := strings.IndexByte(q[i+1:], c)
+			if j < 0 {
+				break
+			}
+			out = append(out, hxs(q[i+1:i+1+j]))
+			i += j + 1
+		} else if c == '`' {
+			j := strings.IndexByte(q[i+1:], c)
+			if j < 0 {
+				break
+			}
+			i += j + 1
+		}
+	}
+	sort.Strings(out)
+	return strings.Join(out, ",")
+}
+
+// treeLiterals: the Data of every StringExpr of a parsed tree, hex, sorted
+func treeLiterals(e kvql.Expression) string {
+	var out []string
+	var walk func(e kvql.Expression, depth int)
+	walk = func(e kvql.Expression, depth int) {
+		if depth > 200 {
+			return
+		}
+		if s, ok := e.(*kvql.StringExpr); ok {
+			out = append(out, hxs(s.Data))
+		}
+		for _, c := range exprChildren(e) {
+			walk(c, depth+1)
+		}
+		if fa, ok := e.(*kvql.FieldAccessExpr); ok {
+			walk(fa.FieldName, depth+1)
+		}
+	}
+	walk(e, 0)
+	sort.Strings(out)
+	return strings.Join(out, ",")
+}
+
+// ---------------------------------------------------------------- direct cases
+//
+// Statements of a few plain shapes over wide literals whose rows this file computes itself, with
+// byte comparisons on the literal AS WRITTEN (no parser, no model): key = L, key ^= L, key in (…),
+// key between L1 and L2, value = L, key > L & value != L2, int(value) = N / > N over stores holding
+// integers beyond 2^53.  Rows of every mode = the stored pairs that satisfy it, in key order.
+func selectDirectCase(e *Env, col *Collector, bs, i int, idx uint64, r *Rand) error {
+	lit := func() string { return pick(r, selWideKeyLits) }
+	var q string
+	var holds func(kv KV) bool
+	kind := skTexts
+	switch r.Intn(8) {
+	case 0:
+		l := lit()
+		q, holds = "select * where key = "+quote(l), func(kv KV) bool { return kv.K == l }
+	case 1:
+		l := lit()
+		q, holds = "select * where key ^= "+quote(l), func(kv KV) bool { return strings.HasPrefix(kv.K, l) }
+	case 2:
+		a, b := lit(), lit()
+		q, holds = "select * where key in ("+quote(a)+", "+quote(b)+")", func(kv KV) bool { return kv.K == a || kv.K == b }
+	case 3:
+		a, b := lit(), lit()
+		if a > b {
+			a, b = b, a
+		}
+		if a == b {
+			b = a + "\xff"
+		}
+		q, holds = "select * where key between "+quote(a)+" and "+quote(b), func(kv KV) bool { return a <= kv.K && kv.K <= b }
+	case 4:
+		l := pick(r, selWideTexts)
+		q, holds = "select * where value = "+quote(l)+" | "+quote(l)+" = key", func(kv KV) bool { return kv.V == l || kv.K == l }
+	case 5:
+		a, l := lit(), pick(r, selWideTexts)
+		q, holds = "select * where key > "+quote(a)+" & value != "+quote(l), func(kv KV) bool { return kv.K > a && kv.V != l }
+	case 6:
+		kind = skInts
+		n := pick(r, selBigInts)
+		q, holds = "select * where int(value) = "+strings.TrimPrefix(n, "-")+" | key = 'zz'", func(kv KV) bool { return kv.V == strings.TrimPrefix(n, "-") || kv.K == "zz" }
+	default:
+		kind = skInts
+		q, holds = "select * where int(value) > 9007199254740992", func(kv KV) bool {
+			// every value of an integer store is a decimal integer of at most 19 digits
+			v := strings.TrimPrefix(kv.V, "+")
+			return !strings.HasPrefix(v, "-") && len(v) >= 16 && (len(v) > 16 || v > "9007199254740992")
+		}
+	}
+	size := 2 + r.Intn(3*bs+3)
+	if bs == 32 && r.Chance(1, 3) {
+		size = 33 + r.Intn(90)
+	}
+	kvs := selStore(r, size, kind, kind == skTexts)
+	if kind == skInts {
+		for j := range kvs {
+			if r.Chance(1, 3) {
+				kvs[j].V = pick(r, selBigInts)
+			}
+		}
+	}
+	var expect []string
+	for _, kv := range kvs {
+		if holds(kv) {
+			expect = append(expect, hxs(kv.K)+"="+hxs(kv.V))
+		}
+	}
+	want := "-"
+	if len(expect) > 0 {
+		want = strings.Join(expect, ",")
+		col.Nontrivial(fmt.Sprintf("%s/%s/%d", q, storeWire(kvs), bs))
+	}
+	col.Hist("direct:judged")
+	caseStr := fmt.Sprintf("`%s` on %s bs=%d", visible(q), showKVs(kvs), bs)
+	for _, mode := range []string{"row", "batch"} {
+		st := NewRefStore(kvs)
+		res := runStatement(q, st, mode == "batch", true)
+		col.Eval(1)
+		out := res.Outcome()
+		got, okShape := "", true
+		if out == "ok" {
+			got, okShape = selRowsOf(res)
+		}
+		pl := planLine(q, map[string]string{"row": "next", "batch": "batch"}[mode], bs, -1, kvs, "-")
+		switch {
+		case out == "panic":
+			col.Find(Finding{Kind: "crash", Group: "SELECT", Check: "panic", Case: caseStr + " mode=" + mode, Line: pl, Engine: "panic: " + res.Panic, Model: "rows " + want,
+				Seed: e.Seed, Index: idx, Properties: []string{"C01", "C06"}})
+		case out != "ok" || !okShape || got != want:
+			col.Find(Finding{Kind: "property", Group: "SELECT", Check: "select-rows-direct", Case: caseStr + " mode=" + mode, Line: pl, Engine: out + " rows " + got, Model: "ok rows " + want + " (byte comparisons on the literals as written)",
+				Seed: e.Seed, Index: idx, Properties: []string{"C01"}})
+		}
+	}
+	return nil
 }
 
 // selMech: the smallest sub-expression on which the engine's row evaluator and the reference
